@@ -89,7 +89,7 @@ def search(ctx, why, budget=None):
                 found["grid"] = Finding("divconn:grid-roots", f"division_connected on a {h}x{w} IntArray2D, k={k}, roots={roots}, "
                                         f"allow_empty_group={allow_empty}, labels={bad[0]}: satisfiable={bad[1]} expected {bad[2]}",
                                         {"grid": [h, w], "k": k, "roots": roots, "allow_empty": allow_empty, "labels": bad[0]})
-    for (n, edges) in graphs.small_graphs(rng, budget or ctx.n(10, 30), 4):
+    for (n, edges) in graphs.reversed_specials() + graphs.small_graphs(rng, budget or ctx.n(10, 30), 4):
         if n > 4:
             continue
         for k in (1, 2, 3):
